@@ -40,8 +40,6 @@ var mux = inproc.NewMux()
 var allGrants = []oidc.GrantType{oidc.GrantTypeCode, oidc.GrantTypeRefreshToken, oidc.GrantTypeTokenExchange, oidc.GrantTypeImplicit,
 	oidc.GrantTypeClientCredentials, oidc.GrantTypeBearer, oidc.GrantTypeDeviceCode}
 
-var allResp = []oidc.ResponseType{oidc.ResponseTypeCode, oidc.ResponseTypeIDTokenOnly, oidc.ResponseTypeIDToken}
-
 const (
 	c20Redirect   = "https://c20.example/cb"
 	c20PostLogout = "https://c20.example/logged-out"
@@ -53,10 +51,14 @@ func registerClients(st *vstore.Store) map[string]*vclient.Client {
 	m := opdrv.StdClients(st)
 	add := func(c *vclient.Client) { st.AddClient(c); m[c.ID] = c }
 	mk := func(id string) *vclient.Client {
-		c := vclient.Confidential(id, "secret-"+id, c20Redirect)
-		c.RespTypes = append([]oidc.ResponseType(nil), allResp...)
-		c.Grants = append([]oidc.GrantType(nil), allGrants...)
-		c.PostLogout = []string{c20PostLogout}
+		// registered lists are deliberately NOT in sorted order and have spare capacity: an in-place sort, a
+		// de-duplication or an append by the library shows in the snapshots and to the race detector
+		c := vclient.Confidential(id, "secret-"+id, c20Redirect, "https://c20.example/a-second")
+		c.Redirects = append(make([]string, 0, 8), c.Redirects...)
+		c.RespTypes = append(make([]oidc.ResponseType, 0, 8), oidc.ResponseTypeIDToken, oidc.ResponseTypeCode, oidc.ResponseTypeIDTokenOnly)
+		c.Grants = append(make([]oidc.GrantType, 0, 16), allGrants...)
+		c.PostLogout = append(make([]string, 0, 8), c20PostLogout, "https://c20.example/a-logged-out")
+		c.ExtraScopes = append(make([]string, 0, 8), "zeta", "api", "alpha")
 		c.ServiceUser = true
 		return c
 	}
@@ -203,17 +205,17 @@ type stubRP struct {
 	url string
 }
 
-func (s stubRP) HttpClient() *http.Client                       { return s.hc }
-func (s stubRP) UserinfoEndpoint() string                       { return s.url }
-func (s stubRP) Logger(context.Context) (*slog.Logger, bool)    { return nil, false }
-func (s stubRP) TokenEndpoint() string                          { return s.url }
-func (s stubRP) GetEndSessionEndpoint() string                  { return s.url }
-func (s stubRP) GetRevokeEndpoint() string                      { return s.url }
-func (s stubRP) GetDeviceAuthorizationEndpoint() string         { return s.url }
-func (s stubRP) Issuer() string                                 { return opIssuer }
-func (s stubRP) IsOAuth2Only() bool                             { return true }
-func (s stubRP) Signer() jose.Signer                            { return nil }
-func (s stubRP) IsPKCE() bool                                   { return false }
+func (s stubRP) HttpClient() *http.Client                    { return s.hc }
+func (s stubRP) UserinfoEndpoint() string                    { return s.url }
+func (s stubRP) Logger(context.Context) (*slog.Logger, bool) { return nil, false }
+func (s stubRP) TokenEndpoint() string                       { return s.url }
+func (s stubRP) GetEndSessionEndpoint() string               { return s.url }
+func (s stubRP) GetRevokeEndpoint() string                   { return s.url }
+func (s stubRP) GetDeviceAuthorizationEndpoint() string      { return s.url }
+func (s stubRP) Issuer() string                              { return opIssuer }
+func (s stubRP) IsOAuth2Only() bool                          { return true }
+func (s stubRP) Signer() jose.Signer                         { return nil }
+func (s stubRP) IsPKCE() bool                                { return false }
 func (s stubRP) ErrorHandler() func(http.ResponseWriter, *http.Request, string, string, string) {
 	return nil
 }
